@@ -93,9 +93,20 @@ fn set_loop_risk(s: &str) -> bool {
     false
 }
 
-fn agree(s: &str, a: &Value) -> bool {
+fn agree(model: &mut crate::model::Model, s: &str, a: &Value) -> bool {
+    // the textual simulation over-approximates: it also flags an `IN [` that the lenient grammar
+    // reads as part of a quoted phrase. When it flags the text, the Lean model of the lenient
+    // grammar decides (it is compared with `parse_query_lenient` on every generated string and
+    // reads the loop guard from the source): only a text on which the model predicts a tree is
+    // handed to the real parser in this process.
     if set_loop_risk(s) {
-        return false;
+        if s.len() > 1200 {
+            return false;
+        }
+        let ans = model.ask(&format!("C16 parsel {}", crate::model::hex(s.as_bytes())));
+        if !ans.starts_with("tree") {
+            return false;
+        }
     }
     matches!(lenient_tree(s), Some((l, 0)) if l == *a)
 }
@@ -345,6 +356,55 @@ fn apply_norm(n: Norm, s: &str, a: &Value) -> Option<(String, Value)> {
             }
         }
         Norm::NegNumberSuffix => {
+            // an elastic range whose bound is a negative number followed by `^…` (">-2.2^5"): strict
+            // ends the bound with its number rule, lenient reads the relaxed word "-2.2^5".
+            // Counterfactual: the equivalent bracket range ("{-2.2 TO *}^5"), same strict tree.
+            {
+                let mut i = 0;
+                while i < cs.len() {
+                    if cs[i] == '>' || cs[i] == '<' {
+                        let gt = cs[i] == '>';
+                        let mut j = i + 1;
+                        let incl = j < cs.len() && cs[j] == '=';
+                        if incl {
+                            j += 1;
+                        }
+                        while j < cs.len() && " \t\r\n".contains(cs[j]) {
+                            j += 1;
+                        }
+                        if j + 1 < cs.len() && cs[j] == '-' && cs[j + 1].is_ascii_digit() {
+                            let mut k = j + 1;
+                            while k < cs.len() && cs[k].is_ascii_digit() {
+                                k += 1;
+                            }
+                            if k + 1 < cs.len() && cs[k] == '.' && cs[k + 1].is_ascii_digit() {
+                                k += 1;
+                                while k < cs.len() && cs[k].is_ascii_digit() {
+                                    k += 1;
+                                }
+                            }
+                            if k < cs.len() && cs[k] == '^' {
+                                let num: String = cs[j..k].iter().collect();
+                                let repl: String = match (gt, incl) {
+                                    (true, false) => format!("{{{num} TO *}}"),
+                                    (true, true) => format!("[{num} TO *]"),
+                                    (false, false) => format!("{{* TO {num}}}"),
+                                    (false, true) => format!("{{* TO {num}]"),
+                                };
+                                let mut c2 = cs.clone();
+                                c2.splice(i..k, repl.chars());
+                                if strict_tree(&text(&c2)).as_ref() == Some(&tree) {
+                                    cs = c2;
+                                    changed = true;
+                                    i += repl.chars().count();
+                                    continue;
+                                }
+                            }
+                        }
+                    }
+                    i += 1;
+                }
+            }
             // `-1~2`, `-1*`: strict reads the number, then the slop / prefix mark; lenient has no
             // number rule and reads one word. Counterfactual: quote the number (the tree may differ
             // only in that literal's delimiter).
@@ -375,6 +435,11 @@ fn apply_norm(n: Norm, s: &str, a: &Value) -> Option<(String, Value)> {
             }
         }
         Norm::Touching => {
+          // several passes: an accepted edit can leave a touching pair to its left when the strict
+          // tree tolerated it only because rewrite_ast deduplicates equal clauses ("^0.0" with the
+          // clauses `.` and `0` present elsewhere: "^0. 0" is accepted, "^0 . 0" only afterwards)
+          for _pass in 0..4 {
+            let before = cs.len();
             let mut i = 1;
             while i < cs.len() {
                 let (mut p, c) = (cs[i - 1], cs[i]);
@@ -397,6 +462,10 @@ fn apply_norm(n: Norm, s: &str, a: &Value) -> Option<(String, Value)> {
                 }
                 i += 1;
             }
+            if cs.len() == before {
+                break;
+            }
+          }
         }
     }
     if changed {
@@ -407,11 +476,11 @@ fn apply_norm(n: Norm, s: &str, a: &Value) -> Option<(String, Value)> {
 }
 
 /// run the normalisers of `order` that are not in `skip`; stop as soon as the grammars agree
-fn normalise(s: &str, a: &Value, skip: Option<Norm>, only: Option<&[Norm]>) -> (bool, Vec<Norm>) {
+fn normalise(model: &mut crate::model::Model, s: &str, a: &Value, skip: Option<Norm>, only: Option<&[Norm]>) -> (bool, Vec<Norm>) {
     let mut text = s.to_string();
     let mut tree = a.clone();
     let mut applied = vec![];
-    if agree(&text, &tree) {
+    if agree(model, &text, &tree) {
         return (true, applied);
     }
     for n in NORMS {
@@ -427,7 +496,7 @@ fn normalise(s: &str, a: &Value, skip: Option<Norm>, only: Option<&[Norm]>) -> (
             text = t2;
             tree = a2;
             applied.push(*n);
-            if agree(&text, &tree) {
+            if agree(model, &text, &tree) {
                 return (true, applied);
             }
         }
@@ -436,7 +505,7 @@ fn normalise(s: &str, a: &Value, skip: Option<Norm>, only: Option<&[Norm]>) -> (
 }
 
 /// the key of a strict/lenient divergence on `s` (strict accepted it)
-fn attribute_divergence(s: &str) -> &'static str {
+fn attribute_divergence(model: &mut crate::model::Model, s: &str) -> &'static str {
     const GENERIC: &str = "C16:lenient-differs-from-strict";
     if s.chars().count() > 1500 {
         return GENERIC;
@@ -445,13 +514,13 @@ fn attribute_divergence(s: &str) -> &'static str {
         Some(a) => a,
         None => return GENERIC,
     };
-    let (ok, applied) = normalise(s, &a, None, None);
+    let (ok, applied) = normalise(model, s, &a, None, None);
     if !ok || applied.is_empty() {
         return GENERIC;
     }
     // necessity: the first normaliser without which the others do not explain the divergence
     for n in &applied {
-        let (still, _) = normalise(s, &a, Some(*n), Some(&applied));
+        let (still, _) = normalise(model, s, &a, Some(*n), Some(&applied));
         if !still {
             return norm_key(*n);
         }
